@@ -2468,3 +2468,235 @@ Proof.
       injection H1 as <-. injection H2 as <-.
       rewrite E1, E2. rewrite <- (Qplus_0_l u1). rewrite <- Vq. ring.
 Qed.
+
+(* ------------------------------------------------------------------ fuel: an answer, once given, is the answer for every larger fuel *)
+
+Lemma fold_res_mono : forall {A S} (step step' : A -> S -> res S) l,
+  (forall c s, In c l -> step c s <> OutOfFuel -> step' c s = step c s) ->
+  forall s, fold_res step l s <> OutOfFuel -> fold_res step' l s = fold_res step l s.
+Proof.
+  intros A S step step' l. induction l as [|a r IH]; intros Hs s H; [reflexivity|].
+  cbn [fold_res] in *.
+  assert (Ha : step a s <> OutOfFuel) by (intros E; rewrite E in H; apply H; reflexivity).
+  rewrite (Hs a s (or_introl eq_refl) Ha).
+  destruct (step a s) as [s1| |]; try reflexivity.
+  apply IH; [|exact H]. intros c x Hin. apply Hs. right. exact Hin.
+Qed.
+
+Lemma fold_opt_mono : forall {A S} (step step' : A -> S -> res (option S)) l,
+  (forall c s, In c l -> step c s <> OutOfFuel -> step' c s = step c s) ->
+  forall s, fold_opt step l s <> OutOfFuel -> fold_opt step' l s = fold_opt step l s.
+Proof.
+  intros A S step step' l. induction l as [|a r IH]; intros Hs s H; [reflexivity|].
+  cbn [fold_opt] in *.
+  assert (Ha : step a s <> OutOfFuel) by (intros E; rewrite E in H; apply H; reflexivity).
+  rewrite (Hs a s (or_introl eq_refl) Ha).
+  destruct (step a s) as [[s1|]| |]; try reflexivity.
+  apply IH; [|exact H]. intros c x Hin. apply Hs. right. exact Hin.
+Qed.
+
+Lemma is_base_h_mono : forall w f f' h mi n, (f <= f')%nat ->
+  is_base_h f w h mi n <> OutOfFuel -> is_base_h f' w h mi n = is_base_h f w h mi n.
+Proof.
+  intros w. induction f as [|f0 IH]; intros f' h mi n Hle H; [contradiction H; reflexivity|].
+  destruct f' as [|f0']; [lia|]. rewrite !is_base_h_S in *.
+  destruct (lookup w mi n) as [[l|mj r]|]; try reflexivity.
+  destruct (Nat.ltb mj (length w)); [|reflexivity]. cbv zeta in *.
+  destruct (import_cycle w h (new_epoch h mi mj)); [reflexivity|].
+  destruct (lookup w mj r); [|reflexivity]. apply IH; [lia|exact H].
+Qed.
+
+Lemma is_base_mono : forall w f f' mi n, (f <= f')%nat ->
+  is_base f w mi n <> OutOfFuel -> is_base f' w mi n = is_base f w mi n.
+Proof. intros. unfold is_base. apply is_base_h_mono; assumption. Qed.
+
+Lemma perform_test_mono : forall fx d w f f' h mi n, (f <= f')%nat ->
+  perform_test fx d f w h mi n <> OutOfFuel -> perform_test fx d f' w h mi n = perform_test fx d f w h mi n.
+Proof.
+  intros fx d w. induction f as [|f0 IH]; intros f' h mi n Hle H; [contradiction H; reflexivity|].
+  destruct f' as [|f0']; [lia|]. rewrite !perform_test_S in *.
+  destruct (lookup w mi n) as [[l|mj r]|]; try reflexivity.
+  - apply fold_opt_mono; [|exact H]. intros c s _ Hc.
+    destruct (is_std_name (uc_ref c)); [reflexivity|].
+    destruct (lookup w mi (uc_ref c)); [|reflexivity]. apply IH; [lia|exact Hc].
+  - destruct (lookup w mj r); [|reflexivity]. cbv zeta in *.
+    destruct (import_cycle w h (new_epoch h mi mj)); [reflexivity|].
+    assert (Hi : perform_test fx d f0 w (new_epoch h mi mj :: h) mj r <> OutOfFuel).
+    { intros E. rewrite E in H. apply H. reflexivity. }
+    rewrite (IH f0' _ mj r (le_S_n _ _ Hle) Hi). reflexivity.
+Qed.
+
+Lemma test_result_oof_iff : forall r, test_result r = OutOfFuel <-> r = OutOfFuel.
+Proof. intros [[h|]| |]; split; intros H; try discriminate; reflexivity. Qed.
+
+Lemma is_defined_mono : forall fx w f f' mi n, (f <= f')%nat ->
+  is_defined fx f w mi n <> OutOfFuel -> is_defined fx f' w mi n = is_defined fx f w mi n.
+Proof.
+  intros fx w f f' mi n Hle H. unfold is_defined in *.
+  rewrite (perform_test_mono fx true w f f' [] mi n Hle); [reflexivity|].
+  intros E. apply H. apply test_result_oof_iff. exact E.
+Qed.
+
+Lemma is_resolved_mono : forall fx w f f' mi n, (f <= f')%nat ->
+  is_resolved fx f w mi n <> OutOfFuel -> is_resolved fx f' w mi n = is_resolved fx f w mi n.
+Proof.
+  intros fx w f f' mi n Hle H. unfold is_resolved in *.
+  rewrite (perform_test_mono fx false w f f' [] mi n Hle); [reflexivity|].
+  intros E. apply H. apply test_result_oof_iff. exact E.
+Qed.
+
+Lemma umap_go_mono : forall fx w f f' mi n e acc, (f <= f')%nat ->
+  umap_go fx f w mi n e acc <> OutOfFuel -> umap_go fx f' w mi n e acc = umap_go fx f w mi n e acc.
+Proof.
+  intros fx w. induction f as [|f0 IH]; intros f' mi n e acc Hle H; [contradiction H; reflexivity|].
+  destruct f' as [|f0']; [lia|]. rewrite !umap_go_S in *.
+  assert (Hb : is_base (S f0) w mi n <> OutOfFuel) by (intros E; rewrite E in H; apply H; reflexivity).
+  rewrite (is_base_mono w (S f0) (S f0') mi n Hle Hb).
+  destruct (is_base (S f0) w mi n) as [[|]| |]; try reflexivity.
+  destruct (lookup w mi n) as [[l|mj r]|]; try reflexivity.
+  - destruct (Nat.eqb (length l) 0 && is_std_name n); [reflexivity|].
+    apply fold_res_mono; [|exact H]. intros c a _ Hc.
+    destruct (is_std_name (uc_ref c)); [reflexivity|].
+    destruct (lookup w mi (uc_ref c)); [|reflexivity]. apply IH; [lia|exact Hc].
+  - destruct (is_std_name n); [reflexivity|]. destruct (lookup w mj r); [|reflexivity]. apply IH; [lia|exact H].
+Qed.
+
+Lemma mult_go_mono : forall fx w f f' mi n, (f <= f')%nat ->
+  mult_go fx f w mi n <> OutOfFuel -> mult_go fx f' w mi n = mult_go fx f w mi n.
+Proof.
+  intros fx w. induction f as [|f0 IH]; intros f' mi n Hle H; [contradiction H; reflexivity|].
+  destruct f' as [|f0']; [lia|]. rewrite !mult_go_S in *.
+  destruct (lookup w mi n) as [[l|mj r]|]; try reflexivity.
+  - destruct (Nat.eqb (length l) 0); [reflexivity|].
+    apply fold_opt_mono; [|exact H]. intros c s _ Hc.
+    destruct (convert_prefix (uc_prefix c)); [|reflexivity].
+    destruct (is_std_name (uc_ref c)); [reflexivity|].
+    destruct (lookup w mi (uc_ref c)); [|reflexivity].
+    assert (Hi : mult_go fx f0 w mi (uc_ref c) <> OutOfFuel) by (intros E; rewrite E in Hc; apply Hc; reflexivity).
+    rewrite (IH f0' mi (uc_ref c) (le_S_n _ _ Hle) Hi). reflexivity.
+  - assert (Hr : is_resolved fx (S f0) w mi n <> OutOfFuel) by (intros E; rewrite E in H; apply H; reflexivity).
+    rewrite (is_resolved_mono fx w (S f0) (S f0') mi n Hle Hr).
+    destruct (is_resolved fx (S f0) w mi n) as [[|]| |]; try reflexivity.
+    destruct (lookup w mj r); [|reflexivity].
+    assert (Hi : mult_go fx f0 w mj r <> OutOfFuel) by (intros E; rewrite E in H; apply H; reflexivity).
+    rewrite (IH f0' mj r (le_S_n _ _ Hle) Hi). reflexivity.
+Qed.
+
+Lemma define_units_map_mono : forall fx w f f' u, (f <= f')%nat ->
+  define_units_map fx f w u <> OutOfFuel -> define_units_map fx f' w u = define_units_map fx f w u.
+Proof.
+  intros fx w f f' u Hle H. unfold define_units_map in *.
+  rewrite (umap_go_mono fx w f f' (fst u) (snd u) 1 [] Hle); [reflexivity|].
+  intros E. rewrite E in H. apply H. reflexivity.
+Qed.
+
+Lemma compatible_mono : forall fx w f f' a b, (f <= f')%nat ->
+  compatible fx f w a b <> OutOfFuel -> compatible fx f' w a b = compatible fx f w a b.
+Proof.
+  intros fx w f f' [a|] [b|] Hle H; try reflexivity. unfold compatible in *.
+  assert (Ha : is_defined fx f w (fst a) (snd a) <> OutOfFuel) by (intros E; rewrite E in H; apply H; reflexivity).
+  rewrite (is_defined_mono fx w f f' _ _ Hle Ha).
+  destruct (is_defined fx f w (fst a) (snd a)) as [[|]| |]; try reflexivity.
+  assert (Hb : is_defined fx f w (fst b) (snd b) <> OutOfFuel) by (intros E; rewrite E in H; apply H; reflexivity).
+  rewrite (is_defined_mono fx w f f' _ _ Hle Hb).
+  destruct (is_defined fx f w (fst b) (snd b)) as [[|]| |]; try reflexivity.
+  assert (Hma : define_units_map fx f w a <> OutOfFuel) by (intros E; rewrite E in H; apply H; reflexivity).
+  rewrite (define_units_map_mono fx w f f' a Hle Hma).
+  destruct (define_units_map fx f w a) as [ma| |]; try reflexivity.
+  assert (Hmb : define_units_map fx f w b <> OutOfFuel) by (intros E; rewrite E in H; apply H; reflexivity).
+  rewrite (define_units_map_mono fx w f f' b Hle Hmb). reflexivity.
+Qed.
+
+Lemma scaling_factor_mono : forall fx w f f' a b, (f <= f')%nat ->
+  scaling_factor fx f w a b <> OutOfFuel -> scaling_factor fx f' w a b = scaling_factor fx f w a b.
+Proof.
+  intros fx w f f' a b Hle H. unfold scaling_factor in *.
+  assert (Hc : compatible fx f w a b <> OutOfFuel) by (intros E; rewrite E in H; apply H; reflexivity).
+  rewrite (compatible_mono fx w f f' a b Hle Hc).
+  destruct (compatible fx f w a b) as [[|]| |]; try reflexivity.
+  destruct a as [a|]; [|reflexivity]. destruct b as [b|]; [|reflexivity].
+  assert (H1 : mult_go fx f w (fst a) (snd a) <> OutOfFuel) by (intros E; rewrite E in H; apply H; reflexivity).
+  rewrite (mult_go_mono fx w f f' _ _ Hle H1).
+  destruct (mult_go fx f w (fst a) (snd a)) as [r1| |]; try reflexivity.
+  assert (H2 : mult_go fx f w (fst b) (snd b) <> OutOfFuel) by (intros E; rewrite E in H; apply H; reflexivity).
+  rewrite (mult_go_mono fx w f f' _ _ Hle H2). reflexivity.
+Qed.
+
+Lemma equivalent_mono : forall fx w f f' a b, (f <= f')%nat ->
+  equivalent fx f w a b <> OutOfFuel -> equivalent fx f' w a b = equivalent fx f w a b.
+Proof.
+  intros fx w f f' a b Hle H. unfold equivalent in *.
+  assert (Hs : scaling_factor fx f w a b <> OutOfFuel) by (intros E; rewrite E in H; apply H; reflexivity).
+  rewrite (scaling_factor_mono fx w f f' a b Hle Hs). reflexivity.
+Qed.
+
+Lemma defined_sem_mono : forall w f f' mi n, (f <= f')%nat ->
+  defined_sem f w mi n = Ok true -> defined_sem f' w mi n = Ok true.
+Proof.
+  intros w. induction f as [|f0 IH]; intros f' mi n Hle H; [discriminate|].
+  destruct f' as [|f0']; [lia|]. rewrite defined_sem_S in *.
+  destruct (lookup w mi n) as [[l|mj r]|]; try discriminate.
+  - rewrite forall_res_true in *. intros c Hin. specialize (H c Hin).
+    destruct (is_std_name (uc_ref c)); [reflexivity|].
+    destruct (lookup w mi (uc_ref c)); [|discriminate]. apply (IH f0'); [lia|exact H].
+  - destruct (lookup w mj r); [|discriminate]. apply (IH f0'); [lia|exact H].
+Qed.
+
+(** The dimension of a fully defined units does not depend on the fuel beyond what definedness needed. *)
+Lemma dim_fuel_independent : forall w f f' mi n k, (f <= f')%nat ->
+  defined_sem f w mi n = Ok true -> dim f' w mi n k = dim f w mi n k.
+Proof.
+  intros w. induction f as [|f0 IH]; intros f' mi n k Hle Hd; [discriminate|].
+  destruct f' as [|f0']; [lia|]. rewrite !dim_S.
+  destruct (defined_is_base_ok (S f0) w [] mi n Hd) as [b Hb].
+  assert (Hb' : is_base (S f0') w mi n = is_base (S f0) w mi n).
+  { apply is_base_mono; [exact Hle|]. unfold is_base. rewrite Hb. discriminate. }
+  rewrite Hb'. unfold is_base at 1 2. rewrite Hb. destruct b; [reflexivity|].
+  pose proof Hd as Hd0. rewrite defined_sem_S in Hd.
+  destruct (lookup w mi n) as [[l|mj r]|] eqn:Hl; try reflexivity.
+  - destruct (Nat.eqb (length l) 0 && is_std_name n); [reflexivity|].
+    f_equal. apply map_ext_in. intros c Hin.
+    destruct (is_std_name (uc_ref c)) eqn:Hs; [reflexivity|].
+    destruct (defined_children f0 w mi n l c Hd0 Hl Hin Hs) as [_ Hdc].
+    rewrite (IH f0' mi (uc_ref c) k (le_S_n _ _ Hle) Hdc). reflexivity.
+  - destruct (is_std_name n); [reflexivity|].
+    destruct (lookup w mj r); [|discriminate]. apply IH; [lia|exact Hd].
+Qed.
+
+(** fuel_monotone + fuel_sufficient: on an acyclic world every fuel above the number of units objects gives the same,
+    non-OutOfFuel, answer as the fuel the drivers use (fuel_for w = S (world_size w)). *)
+Lemma fuel_independent : forall fx w f, acyclic w -> (world_size w < f)%nat ->
+  (forall a b, compatible fx f w a b = compatible fx (fuel_for w) w a b /\ compatible fx f w a b <> OutOfFuel) /\
+  (forall a b, scaling_factor fx f w a b = scaling_factor fx (fuel_for w) w a b /\ scaling_factor fx f w a b <> OutOfFuel) /\
+  (forall a b, equivalent fx f w a b = equivalent fx (fuel_for w) w a b /\ equivalent fx f w a b <> OutOfFuel) /\
+  (forall mi n, is_defined fx f w mi n = is_defined fx (fuel_for w) w mi n /\
+                define_units_map fx f w (mi, n) = define_units_map fx (fuel_for w) w (mi, n) /\
+                mult_go fx f w mi n = mult_go fx (fuel_for w) w mi n) /\
+  (forall mi n k, defined_sem (fuel_for w) w mi n = Ok true -> dim f w mi n k = dim (fuel_for w) w mi n k).
+Proof.
+  intros fx w f Hac Hf. unfold fuel_for.
+  assert (Hle : (S (world_size w) <= f)%nat) by lia.
+  destruct (reducers_terminate fx (S (world_size w)) w Hac (Nat.lt_succ_diag_r _)) as [T1 [_ T3]].
+  destruct (reducers_terminate fx f w Hac Hf) as [T1' _].
+  split; [|split; [|split; [|split]]].
+  - intros a b. split; [apply compatible_mono; [exact Hle|apply T1]|apply T1'].
+  - intros a b. split; [apply scaling_factor_mono; [exact Hle|apply T1]|apply T1'].
+  - intros a b. split; [apply equivalent_mono; [exact Hle|apply T1]|apply T1'].
+  - intros mi n. destruct (T3 mi n) as [_ [D [M U]]].
+    split; [apply is_defined_mono; [exact Hle|exact D]|].
+    split; [apply define_units_map_mono; [exact Hle|exact M]|apply mult_go_mono; [exact Hle|exact U]].
+  - intros mi n k Hd. apply dim_fuel_independent; [exact Hle|exact Hd].
+Qed.
+
+Lemma fuel_nonvacuous :
+  acyclic w_mm /\ fuel_for w_mm = 5%nat /\
+  defined_sem (fuel_for w_mm) w_mm 0 "mm_sq" = Ok true /\
+  scaling_factor unfixed 50 w_mm (Some (0%nat, "mm_sq")) (Some (0%nat, "m2")) = Ok (FPow (6 # 1)) /\
+  dim 50 w_mm 0 "mm_sq" "metre" == 2 # 1.
+Proof.
+  split; [exact acyclic_w_mm|]. split; [reflexivity|]. split; [vm_compute; reflexivity|].
+  destruct (fuel_independent unfixed w_mm 50 acyclic_w_mm) as [_ [S [_ [_ D]]]]; [vm_compute; lia|].
+  split.
+  - rewrite (proj1 (S _ _)). vm_compute. reflexivity.
+  - rewrite (D 0%nat "mm_sq" "metre"); [vm_compute; reflexivity|vm_compute; reflexivity].
+Qed.
